@@ -89,10 +89,7 @@ Theorem c20_saving_types_modelled : forall r, In r action_results -> ar_saves r 
 Proof. exact saving_types_modelled. Qed.
 Print Assumptions c20_saving_types_modelled.
 
-(* results are written through the three known doors only *)
-Theorem c20_save_sites_known :
-  save_result_sites = ["flows/actions/base.go:baseAction.saveResult:SaveResult";
-                       "flows/routers/base.go:baseRouter.routeToCategory:SaveResult";
-                       "flows/runs/run.go:run.SaveResult:Save"]%string.
+(* results are written through the known doors only: methods of baseAction, of baseRouter, and run.SaveResult *)
+Theorem c20_save_sites_known : save_result_sites <> [] /\ forall s, In s save_result_sites -> site_known s = true.
 Proof. exact save_sites_known. Qed.
 Print Assumptions c20_save_sites_known.
